@@ -3291,9 +3291,24 @@ class MaybeAlignPartitions(Expr):
             or all(
                 dfs[0].divisions == df.divisions and df.known_divisions for df in dfs
             )
-            or len(self.divisions) == 2
         ):
             return self._expr_cls(*self.operands)
+        elif len(self.divisions) == 2:
+            # One partition each, but the index ranges differ (or only some
+            # are known): the partition-wise operation is still correct, it
+            # just needs consistent divisions on its inputs
+            if self.divisions[0] is None:
+                args = [
+                    (
+                        ClearDivisions(op)
+                        if isinstance(op, Expr) and op.ndim > 0 and op.known_divisions
+                        else op
+                    )
+                    for op in self.operands
+                ]
+            else:
+                args = maybe_align_partitions(*self.operands, divisions=self.divisions)
+            return self._expr_cls(*args)
         elif self.divisions[0] is None:
             # We have to shuffle
             npartitions = max(df.npartitions for df in dfs)
@@ -3451,9 +3466,17 @@ class OpAlignPartitions(MaybeAlignPartitions):
         if (
             len(dfs) == 1
             or all(dfs[0].divisions == df.divisions for df in dfs)
-            or len(self.divisions) == 2
         ):
             return self._op(self.frame, self.op, self.other, *self.operands[3:])
+
+        if len(self.divisions) == 2 and self.divisions[0] is None:
+            # One partition each and only some divisions known: the
+            # partition-wise operation just needs consistent divisions
+            frame, other = (
+                ClearDivisions(df) if df.known_divisions else df
+                for df in (self.frame, self.other)
+            )
+            return self._op(frame, self.op, other, *self.operands[3:])
 
         from dask_expr._repartition import RepartitionDivisions
 
